@@ -15,6 +15,8 @@ struct Cx<'tcx> {
     sync: Option<DefId>,
     opaquable: Option<DefId>,
     opaque_target: Option<DefId>,
+    into_fn: Option<DefId>,
+    from_fn: Option<DefId>,
 }
 
 thread_local! {
@@ -89,7 +91,15 @@ pub fn dump<'tcx>(tcx: TyCtxt<'tcx>, tag: &str) -> String {
         sync: tcx.lang_items().sync_trait(),
         opaquable: None,
         opaque_target: None,
+        into_fn: None,
+        from_fn: None,
     };
+    if let Some(t) = tcx.get_diagnostic_item(rustc_span::sym::Into) {
+        cx.into_fn = tcx.associated_item_def_ids(t).first().copied();
+    }
+    if let Some(t) = tcx.get_diagnostic_item(rustc_span::sym::From) {
+        cx.from_fn = tcx.associated_item_def_ids(t).first().copied();
+    }
     for t in tcx.all_traits_including_private() {
         if path_s(tcx, t).ends_with("trait_group::Opaquable") {
             cx.opaquable = Some(t);
@@ -802,6 +812,24 @@ impl<'tcx> Cx<'tcx> {
         let resolved = std::panic::catch_unwind(std::panic::AssertUnwindSafe(|| {
             Instance::try_resolve(tcx, tenv, did, args)
         }));
+        // `Into::into` resolves to the blanket impl; report the `From` impl behind it as well.
+        if Some(did) == self.into_fn {
+            if let (Some(from_fn), Some(t), Some(u)) = (self.from_fn, args.get(0), args.get(1)) {
+                let fargs = tcx.mk_args(&[*u, *t]);
+                let r = std::panic::catch_unwind(std::panic::AssertUnwindSafe(|| {
+                    Instance::try_resolve(tcx, tenv, from_fn, fargs)
+                }));
+                if let Ok(Ok(Some(inst))) = r {
+                    let rd = inst.def_id();
+                    let mut e = vec![("path", q(&path_s(tcx, rd)))];
+                    if let Some(im) = tcx.impl_of_assoc(rd) {
+                        e.push(("impl_path", q(&path_s(tcx, im))));
+                        e.push(("krate", q(tcx.crate_name(rd.krate).as_str())));
+                    }
+                    f.push(("via_from", obj(e)));
+                }
+            }
+        }
         if let Ok(Ok(Some(inst))) = resolved {
             let rd = inst.def_id();
             let mut r = vec![
@@ -1013,17 +1041,25 @@ impl<'tcx> Cx<'tcx> {
                 ("line", line),
             ]),
             TerminatorKind::Call { func, args, destination, target, unwind, fn_span, .. } => {
+                let f_j = if func.const_fn_def().is_some() {
+                    obj(vec![("fnconst", b(true))])
+                } else {
+                    self.op_j(body, func, tenv)
+                };
                 let mut f = vec![
                     ("k", q("call")),
-                    ("f", self.op_j(body, func, tenv)),
+                    ("f", f_j),
                     ("args", arr(args.iter().map(|a| self.op_j(body, &a.node, tenv)).collect())),
                     ("d", self.place_j(body, *destination)),
                     ("t", target.map(|b| b.as_usize().to_string()).unwrap_or_else(null)),
                     ("u", unwind_j(unwind)),
                     ("line", line),
                     ("exp", b(fn_span.from_expansion())),
-                    ("fty", q(&ty_s(func.ty(&body.local_decls, tcx)))),
+                    ("dty", q(&ty_s(destination.ty(&body.local_decls, tcx).ty))),
                 ];
+                if func.const_fn_def().is_none() {
+                    f.push(("fty", q(&ty_s(func.ty(&body.local_decls, tcx)))));
+                }
                 if let Some((did, gargs)) = func.const_fn_def() {
                     f.push(("callee", self.fn_ref_j(did, gargs, tenv)));
                 }
